@@ -4,7 +4,7 @@ import runlib as R
 ID = 'C20'
 COQ_TARGETS = ['Props/Properties_C20.vo']
 PROPS_FILES = ['Props/Properties_C20.v']
-THEOREMS = ['C20_sortmx', 'C20_sortmx_stable', 'C20_spec_checker_sound', 'C20_tryconn_once', 'C20_not_me', 'C20_targets', 'C20_route_order', 'C20_route_empty_relay', 'C20_dnsmx', 'C20_getmxlist', 'C20_main', 'C20_connect_compose', 'C20_connect_once', 'C20_connect_noent_after_all',
+THEOREMS = ['C20_sortmx', 'C20_sortmx_stable', 'C20_spec_checker_sound', 'C20_spec_checker_complete', 'C20_spec_checker_accepts_sortmx', 'C20_tryconn_once', 'C20_not_me', 'C20_targets', 'C20_route_order', 'C20_route_empty_relay', 'C20_dnsmx', 'C20_getmxlist', 'C20_main', 'C20_connect_compose', 'C20_connect_once', 'C20_connect_noent_after_all',
             'C20_connect_total', 'C20_temp_failure_refuted', 'C20_temp_failure_partial', 'C20_connect_exit_classes', 'C20_ports']
 ENGINES = [dict(name='mx', c_sources=['mx_h.c'], extract='Extract/Extract_mx.v', driver='mx_driver.ml',
                 accepts=lambda c: c.split(' ')[0] in ('01', '02', '03', '04', '05', '06', '07')),
@@ -323,7 +323,8 @@ def classify(case, c_out):
     # F-C20-5: the run ended without using a connection although candidates were left (spec: early_exit_b)
     if case.startswith('ca ') and c_out.startswith('B '):
         total, natt, used = _ca_obs(case, c_out)
-        if not used and natt < total:
+        # ... by an exit inside connect_mx() / the pinned-host refusal, not by "Z4.4.2 can't connect to any server"
+        if not used and natt < total and ' S5a342e342e32' not in c_out:
             return 'gives-up-with-candidates-left'
     return None
 
